@@ -104,6 +104,35 @@ int main(int argc, char **argv)
 				jwt_builder_free(b); jwt_checker_free(c);
 				jwks_free(set);	/* freed under the *using* provider */
 			}
+			/* the private JWK itself as the checker's key (a private JWK verifies as well), with the key_ops members a key file may
+			 * carry: what a JWK says about its intended use must not make the providers differ */
+			if (k.kind != VH_K_OCT) {
+				static const char *OPS[] = { NULL, "\"key_ops\":[\"sign\"]", "\"key_ops\":[\"verify\"]", "\"key_ops\":[\"sign\",\"verify\"]", "\"key_ops\":[]",
+					"\"key_ops\":[\"encrypt\"]", "\"use\":\"enc\"", "\"use\":\"sig\",\"key_ops\":[\"sign\"]" };
+				for (int oi = 0; oi < 8; oi++) for (int up = 0; up < 2; up++) {
+					jwk_set_t *set = NULL;
+					char *txt = vh_key_jwk(&k, 1, NULL, NULL, OPS[oi]), label[96];
+					const jwk_item_t *priv;
+					jwt_builder_t *b; jwt_checker_t *c;
+					char *tok;
+					int vrc = -1, ref = -1, lp = oi & 1;
+					vh_set_prov(lp);
+					set = jwks_create(txt); free(txt);
+					priv = set ? jwks_item_get(set, 0) : NULL;
+					if (!priv || jwks_item_error(priv)) vh_harness_fail("private JWK with %s does not load", OPS[oi] ? OPS[oi] : "no key_ops");
+					vh_set_prov(up);
+					b = jwt_builder_new(); c = jwt_checker_new();
+					jwt_builder_setkey(b, (jwt_alg_t)ALGS[i], priv);
+					jwt_checker_setkey(c, (jwt_alg_t)ALGS[i], priv);
+					tok = jwt_builder_generate(b);
+					if (tok) { vrc = jwt_checker_verify(c, tok); ref = vh_ref_token_valid(&k, tok, NULL); }
+					snprintf(label, sizeof(label), "%s private JWK as verifier, members %d", SPECS[i], oi);
+					printf("[\"P\",\"%s\",%d,%d,%d,%d,%d,%d]\n", label, ALGS[i], lp, up, tok == NULL, vrc, ref);
+					free(tok);
+					jwt_builder_free(b); jwt_checker_free(c);
+					jwks_free(set);
+				}
+			}
 			/* provider switched in the middle of a history: the same builder, checker and keyring items are used under
 			 * alternating providers (patterns ABABAB and AABBAA); every token must verify under the same checker and the reference */
 			for (int lp = 0; lp < 2; lp++) for (int pat = 0; pat < 2; pat++) {
